@@ -497,6 +497,10 @@ ssize_t fgetxattr(int fd, const char* name, void* value, size_t size) {
     return real(fd, name, value, size);
   }
   on_access("fgetxattr", p + "#" + name);
+  if (g.xattr_get_errno && active()) {
+    errno = g.xattr_get_errno;
+    return -1;
+  }
   struct stat st;
   if (::fstat(fd, &st) != 0) {
     return -1;
@@ -642,6 +646,23 @@ ssize_t write(int fd, const void* buf, size_t n) {
       e["path"] = rel_to_root(p);
       e["data"] = std::string((const char*)buf, std::min<size_t>(n, 4096));
       e["n"] = (Json::UInt64)n;
+      std::string bn = base_name(p);
+      for (auto& wf : g.write_faults) {
+        if (wf.file == bn && wf.remaining != 0) {
+          if (wf.remaining > 0) {
+            wf.remaining--;
+          }
+          if (wf.shortw && n > 1) {
+            e["fault"] = "short";
+            ev(e);
+            return real(fd, buf, n / 2);
+          }
+          e["fault"] = wf.err;
+          ev(e);
+          errno = wf.err;
+          return -1;
+        }
+      }
       ev(e);
     }
   }
